@@ -102,3 +102,20 @@ Theorem C14_offset_exact : forall fsize szz, 0 < szz -> 0 <= fsize -> fsize + sz
   Z.to_nat (append_ret fsize szz) = S (Z.to_nat fsize / Z.to_nat szz).
 Proof. exact offset_exact. Qed.
 Print Assumptions C14_offset_exact.
+
+(* Whole records in front of the file do not matter. [shifted k P s s']: s' is s with P in front of the file and every
+   index held by a thread (the slot it seeked to, the index it returned) increased by k - same program counters otherwise,
+   same lock table, same flock owner, same order of completed writes. For EVERY configuration, EVERY prefix P of k whole
+   records, EVERY initial file and EVERY schedule, the run on [P ++ init] is the shifted run on [init], and a strict
+   replay is accepted on the one iff it is accepted on the other. With C14_offset_exact this is what lets the check replay
+   a trace observed on a file of 4 GiB through the model on the window that starts at the last initial record: the
+   33 554 431 records in front of it are P. *)
+Theorem C14_prefix_shift : forall c k P, (0 < sz c)%nat -> length P = (k * sz c)%nat -> forall init sch,
+  shifted k P (run c sch (init_st init)) (run c sch (init_st (P ++ init))) /\
+  match replay c sch (init_st init), replay c sch (init_st (P ++ init)) with
+  | Some a, Some a' => shifted k P a a'
+  | None, None => True
+  | _, _ => False
+  end.
+Proof. exact prefix_shift. Qed.
+Print Assumptions C14_prefix_shift.
